@@ -830,6 +830,11 @@ def generate(unit_path, repo=REPO):
                     if it['kind'] == 'fn' and it['body_open'] is not None:
                         text = splice_fn(text, ann, log)
                     lit_sources.append(text)
+                if opts.get('vis') == 'priv':
+                    # visibility only: lets the contract mention private fields (logged as rule V)
+                    text, nv = re.subn(r'^(\s*(?:#\[[^\]]*\]\s*)*)pub(?:\([a-z]+\))?\s+', r'\1', text, count=1)
+                    if nv:
+                        log.append(('V', nv))
                 if opts.get('vis') == 'pub':
                     if not re.match(r'\s*(#\[[^\]]*\]\s*)*pub\b', text):
                         text = re.sub(r'^(\s*(?:#\[[^\]]*\]\s*)*)', r'\1pub ', text, count=1)
